@@ -80,8 +80,15 @@ class OptimizerBase(abc.ABC):
             self.grid.update(junction.index, clamp.position)
             return junction.quality
 
+        # probe inside the clamp's bounds: step backwards from an upper bound
+        epsilon = np.full(len(clamp.params), 10 * TOL)
+        if clamp.bounds is not None:
+            for i, bound in enumerate(clamp.bounds):
+                if bound[1] is not None and clamp.params[i] + epsilon[i] > bound[1]:
+                    epsilon[i] = -epsilon[i]
+
         sensitivities = np.asarray(
-            scipy.optimize.approx_fprime(clamp.params, lambda p: fquality(clamp, junction, p), epsilon=10 * TOL)
+            scipy.optimize.approx_fprime(clamp.params, lambda p: fquality(clamp, junction, p), epsilon=epsilon)
         )
 
         clamp.update_params(initial_params)
